@@ -182,6 +182,7 @@ RULE = (
     "off-diagonals}, baseline in {none, scalar, vector}, bounds; intensities as 1-D/2-D/3-D batches. Oracle = harness's own "
     "trapezoid of the physically mixed spectrum and K(Q+baseline) written with explicit loops (rel. 1e-10 of sum|terms|). "
     "Non-trivial = n_filters != n_sources (transposition visible) and K non-scalar or baseline != 0; adaptation cases always."
+    " The own-grid comparison uses an int64 filter grid (np.arange-like) in half of the cases."
 )
 
 # ------------------------------------------------------------------------------------------------
